@@ -470,7 +470,13 @@ def property_on_impl(case, base, rng):
     # (a change of the unit of time by many orders of magnitude — years to seconds, generations to millions of
     #  years — is the scaling law at work: sums of logarithms must not be computed as logarithms of products)
     big = min(12, max(6, -(-340 // max(1, n - 1))))      # enough for a product of n-1 sizes to leave the double range
-    for c in (rng.choice([0.5, 2.0, 4.0]), rng.choice([3.7, 0.3]), 10.0 ** (rng.choice([-1, 1]) * big)):
+    # an event within a few ulps of a grid point (a grid ending at the root height computed as cutoff * m / m) may land
+    # on the other side of it, or on it, once both are multiplied by c: the value of a step function AT its jump is a
+    # convention, not part of the scaling law — such cases are left to the other checks
+    evs = [t for row in case["coals"] for t in row] + list(case["tips"])
+    hairline = any(abs(g - t) <= 1e-13 * max(1.0, abs(g)) and g != t for g in (case.get("grid") or []) for t in evs)
+    for c in (() if hairline else
+              (rng.choice([0.5, 2.0, 4.0]), rng.choice([3.7, 0.3]), 10.0 ** (rng.choice([-1, 1]) * big))):
         try:
             v = impl_dist(case, tips=[c * t for t in case["tips"]],
                           coals=[[c * t for t in row] for row in case["coals"]],
